@@ -107,8 +107,8 @@ func C08(r *core.Run) {
 		r.Finish(1)
 	}
 	defer md.Close()
-	kinds := []string{"500", "503-empty-body", "garbage", "reset", "long-outage", "mixed", "404-empty-body", "500", "hang", "completions-during-outage"}
-	nScripts := r.Pick(10, 20)
+	kinds := []string{"500", "503-empty-body", "garbage", "reset", "long-outage", "mixed", "404-empty-body", "500", "hang", "completions-during-outage", "error-text-looks-like-cancellation"}
+	nScripts := r.Pick(11, 22)
 	var wg sync.WaitGroup
 	for si := 0; si < nScripts; si++ {
 		wg.Add(1)
@@ -258,6 +258,10 @@ func c08Script(r *core.Run, agentBin string, md *fakes.Metadata, si, rep int, ki
 			}
 		}
 		switch k {
+		case "error-text-looks-like-cancellation":
+			// failing replies whose bodies quote errors of the proxy's own back ends
+			st := []int{500, 401, 503, 499}[i%4]
+			http.Error(w, []string{"context canceled", "rpc error: code = Canceled desc = context canceled", "Post \"http://store/\": context deadline exceeded", "operation was canceled; EOF; connection reset by peer; i/o timeout"}[i%4], st)
 		case "500":
 			http.Error(w, "scripted failure", 500)
 		case "503-empty-body":
